@@ -22,6 +22,7 @@ From Coq Require Import ZArith.
 From LF Require Import Gen.TetTable_gen Render.MarchTet Render.MarchTetSem.
 From LF Require Gen.MarchTables_gen Render.DCGrid Render.DCGridSem.
 From LF Require Render.SimplexGrid Render.SimplexGridSem.
+From LF Require Render.OctTree Render.OctTreeCollect Render.OctTreeSem.
 Import ListNotations.
 
 (* the table itself: 16 rows, 0 / 1 / 2 triangles by the number of inside vertices, every
@@ -159,6 +160,82 @@ Theorem C03_simplex_boundary_needed :
   ~ closed_mesh (SimplexGrid.simplex_mesh 2 (SimplexGridSem.ins_of 2 [(0, 2, 2)%Z])).
 Proof. exact SimplexGridSem.boundary_needed. Qed.
 
+(* ------------------------------------------------------------------ *)
+(* DUAL CONTOURING ON ADAPTIVE OCTREES (cells of different levels, collapsed cells)                      *)
+(* Render/OctTree.v models the octree, the topological part of DCTree<3>::collectChildren (with the      *)
+(* 256-entry cornersAreManifold table read from dc_tree3.cpp), the recursive walk Dual<3>::work /        *)
+(* face3 / edge3 and DCMesher::load (minimum-level rule, push_triangle); [ok] is the verdict of the      *)
+(* numerical collapse tests, [diag] the normal-dependent choice of quad diagonal: both arbitrary.        *)
+(* ------------------------------------------------------------------ *)
+Module Adaptive.
+Import OctTree OctTreeCollect OctTreeSem.
+
+(* collapsing keeps the tree consistent with the lattice signs, for every verdict of the numerical tests *)
+Theorem C03_dc_collapse_preserves_invariant : forall ins ok t o k p,
+  oconsistent ins t o k -> oconsistent ins (ocollect ok k p t) o k.
+Proof. exact ocollect_consistent. Qed.
+
+(* WATERTIGHT AND CONSISTENTLY ORIENTED on ANY consistent adaptive octree - leaves of any mix of levels,
+   pruned cells of any size - and for EVERY choice of quad diagonals: every directed edge is used as
+   often as its reverse *)
+Theorem C03_dc_adaptive_closed : forall ins t k diag,
+  oconsistent ins t (0, 0, 0)%Z k -> oboundary_clear ins k -> oclosed_mesh (mesh_walk diag t).
+Proof. exact walk3_closed. Qed.
+
+(* no triangle repeats a vertex; every corner is a real patch vertex of its leaf *)
+Theorem C03_dc_adaptive_triangles_valid : forall ins t k diag, oconsistent ins t (0, 0, 0)%Z k ->
+  forall tr, In tr (mesh_walk diag t) ->
+    (let '(a, b, c) := tr in a <> b /\ b <> c /\ a <> c) /\
+    (forall v, (v = fst (fst tr) \/ v = snd (fst tr) \/ v = snd tr) -> (0 <= snd v)%Z).
+Proof.
+  intros ins t k diag C tr H. split; [exact (mesh_no_degenerate diag t tr H)|].
+  intros v Hv. exact (mesh_vertices_valid ins t k diag C tr v H Hv).
+Qed.
+
+(* every triangle comes from one DCMesher::load call on four non-branching cells around one lattice edge,
+   one of them exactly as large as the edge (the minimal-edge rule) *)
+Theorem C03_dc_adaptive_triangles_from_minimal_edges : forall ins t k diag,
+  oconsistent ins t (0, 0, 0)%Z k -> forall tr, In tr (mesh_walk diag t) -> load_call ins diag tr.
+Proof. exact walk3_calls. Qed.
+
+(* the hypotheses are satisfiable by EVERY lattice sign function: prune + subdivide + collapse + walk is
+   closed for every solid strictly inside the region, every depth, every verdict of the numerical tests
+   and every choice of diagonals *)
+Theorem C03_dc_adaptive_pipeline_closed : forall ins ok k diag,
+  oboundary_clear ins k -> oclosed_mesh (mesh_walk diag (ocollect ok k [] (obuild ins k (0, 0, 0)%Z))).
+Proof. exact adaptive_dc_pipeline_closed. Qed.
+
+(* the run-time checkers of the correspondence stage decide the hypotheses (and closedness) soundly *)
+Theorem C03_dc_adaptive_checkers_sound : forall ins,
+  (forall t o k, oconsistentb ins t o k = true -> oconsistent ins t o k) /\
+  (forall k, oboundary_clearb ins k = true -> oboundary_clear ins k) /\
+  (forall m, oclosed_meshb m = true -> oclosed_mesh m).
+Proof.
+  intros ins. split; [exact (oconsistentb_sound ins)|]. split; [exact (oboundary_clearb_sound ins) | exact oclosed_meshb_sound].
+Qed.
+
+(* the table of dc_tree3.cpp means what its comment says: a corner mask is manifold iff the filled corners
+   and the empty corners are each connected along cube edges *)
+Theorem C03_corner_table_is_connectivity : forall m, (0 <= m < 256)%Z ->
+  (ocorners_manifold m = true <-> oconnected m /\ oconnected (255 - m)).
+Proof. exact ocorners_manifold_connected. Qed.
+
+(* non-vacuity: an 8 x 8 x 8 lattice whose collapsed tree has leaves of levels 2, 1 and 0 side by side;
+   necessity: a solid touching the region boundary leaves an unpaired edge *)
+Theorem C03_dc_adaptive_example :
+  oconsistentb ins_bump bump_tree (0, 0, 0)%Z 3 = true /\ oboundary_clearb ins_bump 3 = true /\
+  length (mesh_walk (fun _ _ _ _ => true) bump_tree) = 32%nat /\
+  (forall diag, oclosed_mesh (mesh_walk diag bump_tree)).
+Proof.
+  destruct bump_checks as (A & B & C & _). split; [exact A|]. split; [exact B|]. split; [exact C | exact bump_closed].
+Qed.
+Theorem C03_dc_boundary_clear_needed :
+  let t := obuild ins_touch 1 (0, 0, 0)%Z in
+  oconsistentb ins_touch t (0, 0, 0)%Z 1 = true /\ oboundary_clearb ins_touch 1 = false /\
+  ~ oclosed_mesh (mesh_walk (fun _ _ _ _ => true) t).
+Proof. destruct oboundary_clear_needed as (_ & A & B & _ & _ & _ & _ & C). split; [exact A|]. split; [exact B | exact C]. Qed.
+End Adaptive.
+
 Print Assumptions C03_table_sanity.
 Print Assumptions C03_tet_boundary.
 Print Assumptions C03_marching_tets_closed.
@@ -177,3 +254,12 @@ Print Assumptions C03_simplex_uniform_grid_manifold.
 Print Assumptions C03_simplex_skipped_emit_nothing.
 Print Assumptions C03_simplex_grid_example.
 Print Assumptions C03_simplex_boundary_needed.
+Print Assumptions Adaptive.C03_dc_collapse_preserves_invariant.
+Print Assumptions Adaptive.C03_dc_adaptive_closed.
+Print Assumptions Adaptive.C03_dc_adaptive_triangles_valid.
+Print Assumptions Adaptive.C03_dc_adaptive_triangles_from_minimal_edges.
+Print Assumptions Adaptive.C03_dc_adaptive_pipeline_closed.
+Print Assumptions Adaptive.C03_dc_adaptive_checkers_sound.
+Print Assumptions Adaptive.C03_corner_table_is_connectivity.
+Print Assumptions Adaptive.C03_dc_adaptive_example.
+Print Assumptions Adaptive.C03_dc_boundary_clear_needed.
